@@ -1,18 +1,17 @@
 """C13 -- backup then restore reproduces the data or reports failure (DESIGN section 5, C13).
 
-(M) TLC exhausts specs/backup/Backup.tla (CreateBackup / RestoreBackup as written: per-file copy
-    loop with skippable source-read failures, fatal backup-write failures, skip-ratio check,
-    manifest, restore loop that logs-and-continues) over every tree (non-empty subset of the
-    model files) x every per-file fault in {none, rb, wb, rr, wr} x filler counts, and checks
-    the backup-side clauses of the property.  The restore-side clause (RestoreSound) is checked
-    on the same as-written model with a counterexample *expected* (it is only a candidate) and
-    on the repaired variant (AsWritten = FALSE), where it must hold.
-(G) the same state space is emitted as one scenario per terminal state with the predicted
-    outcome of both variants; the Go driver replays every scenario on the real backup.Manager
-    with fault-injecting proxies around the source, the backup store and an empty restore
-    target, and judges the *real* outcome against the property statement.  The predictions are
-    drift detectors.
+(M) TLC exhausts specs/backup/Backup.tla (CreateBackup / RestoreBackup as the code is now: per-file
+    copy loop with skippable source-read failures, fatal backup-write failures, skip-ratio check,
+    manifest; restore loop that counts failed files and fails at the end) over every tree (non-empty
+    subset of the model files) x every per-file fault in {none, rb, wb, rr, wr} x filler counts and
+    checks every clause of the property.  Negative control: the same model with the pre-0fc80ea
+    log-and-continue restore loop must be rejected (RestoreSound violated).
+(G) the same run emits one scenario per terminal state with the predicted outcome; the Go driver
+    replays every scenario on the real backup.Manager with fault-injecting proxies around the source,
+    the backup store and an empty restore target, and judges the *real* outcome against the property
+    statement.  The prediction is a drift detector.
 """
+import concurrent.futures
 import json
 import os
 
@@ -32,42 +31,39 @@ def _pred(t):
 
 def run(ctx):
     size = "small" if ctx.quick() else "large"
-    # ---- (M)+(G): the generation configs check the same invariants as the MC_* configs and print one
-    # TRACE line per terminal state, so one exhaustive run per variant serves both purposes
-    mc = genA = ctx.tlc("backup", "Backup", "Gen_%s.cfg" % size, coverage=True, timeout=1800, workers=4)
+    # ---- build in the background while TLC runs
+    ov = ctx.make_overlay(["backup"])
+    ctx.harness_dir()
+    pool = concurrent.futures.ThreadPoolExecutor(max_workers=1)
+    build = pool.submit(ctx.go_build, "backup", ("verif",), ov)
+    # ---- (M)+(G): the generation config checks every invariant of the MC_* config and prints one TRACE
+    # line per terminal state, so one exhaustive run serves both purposes
+    mc = ctx.tlc("backup", "Backup", "Gen_%s.cfg" % size, coverage=True, timeout=1800, workers=4)
     need = ("BackupCopy", "BackupSkipUnreadable", "BackupWriteFatal", "RatioCheck", "WriteManifest",
             "RestoreReadManifest", "RestoreCopy", "RestoreFileFails", "RestoreLoopEnd")
     for a in need:
         if mc.coverage.get(a, (0, 0))[0] == 0:
             raise InfraError("vacuous model: action %s never fired" % a)
-    rep = genR = ctx.tlc("backup", "Backup", "Gen_%s_repaired.cfg" % size, timeout=1800, workers=4)
-    cand = ctx.tlc("backup", "Backup", "MC_small_prop.cfg", timeout=600, workers=1, allow_violation=True)
+    # negative control: the pre-0fc80ea restore loop (log and continue) must be rejected by RestoreSound
+    neg = ctx.tlc("backup", "Backup", "NegControl_legacy_skip.cfg", timeout=600, workers=1, allow_violation=True)
+    if neg.violated != "RestoreSound":
+        raise InfraError("negative control: TLC did not reject the legacy log-and-continue restore (violated=%s)" % neg.violated)
     ctx.note("tlc_model_check", {
-        "as_written": {"cfg": "Gen_%s.cfg" % size, "distinct": mc.distinct, "generated": mc.generated, "depth": mc.depth,
-                       "invariants": ["TypeOK", "BackupRecordsSkips", "BackupHoldsReadable", "NoManifestNoRestore"],
-                       "actions_fired": {k: v[0] for k, v in mc.coverage.items()}},
-        "repaired": {"cfg": "Gen_%s_repaired.cfg" % size, "distinct": rep.distinct, "generated": rep.generated,
-                     "depth": rep.depth, "invariants": ["BackupSide", "RestoreSound"]},
-        "as_written_RestoreSound": {"cfg": "MC_small_prop.cfg", "violated": cand.violated,
-                                    "note": "candidate only; the verdict comes from the replay on real code"},
+        "cfg": "Gen_%s.cfg" % size, "distinct": mc.distinct, "generated": mc.generated, "depth": mc.depth,
+        "invariants": ["TypeOK", "BackupRecordsSkips", "BackupHoldsReadable", "NoManifestNoRestore", "RestoreSound"],
+        "actions_fired": {k: v[0] for k, v in mc.coverage.items()},
+        "negative_control": {"cfg": "NegControl_legacy_skip.cfg", "violated": neg.violated},
     })
-    if not genA.traces or len(genA.traces) != len(genR.traces):
-        raise InfraError("generator output mismatch: %d vs %d" % (len(genA.traces), len(genR.traces)))
-    scen = {}
-    for t in genA.traces:
-        scen[_key(t)] = {"present": sorted(t["present"]), "fault": t["fault"], "filler": t["filler"],
-                         "pred": {"aswritten": _pred(t)}}
-    for t in genR.traces:
-        k = _key(t)
-        if k not in scen:
-            raise InfraError("repaired generator produced an unknown scenario")
-        scen[k]["pred"]["repaired"] = _pred(t)
-    scs = [scen[k] for k in sorted(scen)]
+    if not mc.traces:
+        raise InfraError("generator emitted nothing")
+    scs = []
+    for t in sorted(mc.traces, key=_key):
+        scs.append({"present": sorted(t["present"]), "fault": t["fault"], "filler": t["filler"], "pred": {"current": _pred(t)}})
     ctx.log("TLC enumerated %d scenarios" % len(scs))
     sp = ctx.path("scenarios.json")
     json.dump(scs, open(sp, "w"))
-    ov = ctx.make_overlay(["backup"])
-    binp = ctx.go_build("backup", overlay=ov)
+    binp = build.result()
+    pool.shutdown()
     rp = ctx.path("result.json")
     modes = os.environ.get("VERIF_C13_MODES", "alternate")   # "both": every fault as early *and* mid failure
     ctx.run([binp, "-scenarios", sp, "-out", rp, "-seed", str(ctx.seed), "-modes", modes], timeout=3000)
@@ -82,8 +78,7 @@ def run(ctx):
     ctx.note("runs", r["runs"])
     ctx.note("files_copied_into_backups", r["files_copied"])
     ctx.note("per_fault_class_runs", r["per_class"])
-    ctx.note("outcome_matches_as_written_model", r["matched_aswritten"])
-    ctx.note("outcome_matches_repaired_model", r["matched_repaired"])
+    ctx.note("outcome_matches_model", r["matched_model"])
     ctx.note("exhaustive", True)
     ctx.note("rule", "every non-empty subset of %s model files (2 databases, nested hour directories, an Iceberg table "
              "metadata directory) x every assignment of one fault in {none, read@backup, write@backup, read@restore, "
